@@ -29,20 +29,20 @@ CHECKS = {
    engine="sim",
    technique="resource-fault simulation: simulator-chosen stack budget and tree-shaping history, child-process containment, in-process stack-depth probe",
    level=dict(category="fault_enumeration", design_ref="DESIGN.md section 6",
-     text="Every (shape family x size x teardown mode x stack budget) scenario of a fixed grid plus seeded ones runs in a child process whose exit status is the oracle; an in-process probe bounds stack depth during comparator and element-drop callbacks."),
-   note="Stack sizes are those the simulator sets (8 MiB main-like, 2 MiB thread, seeded smaller); release profile of the harness; sizes up to 3e6 keys / 1e6 edges."),
+     text="Every scenario of a fixed grid (container kind x insertion-order shape x size x first operation at either end x teardown mode incl. partial consumption x stack budget x build profile; five families of large Boolean operations) plus seeded ones runs in a child process whose exit status is the oracle; an in-process probe bounds stack depth during comparator and element-drop callbacks."),
+   note="Stack budgets are the two the property names (8 MiB, 2 MiB); children built optimised and with opt-level 0; sizes 1e3..3e6 keys, operations up to 1.6e6 edges (comb, staircase, nested rings, grid, bow tie)."),
  "C09": dict(
    engine="sim",
-   technique="buggify differential: the two fast paths are cooperative fault points the simulator switches off per run; results compared with the all-slow-path reference execution",
+   technique="buggify differential: the bounding-box shortcut and the early sweep exit are cooperative fault points the simulator switches off (boxes widened at their source); every configuration compared with the all-slow-path reference execution; fast paths the switches cannot reach are detected through the sweep seams and checked against a small executable region model",
    level=dict(category="exploration", design_ref="DESIGN.md section 3",
-     text="Second clause of C09 (results agree whether or not the bbox shortcut / early sweep exit is taken) on exact-arithmetic operand families: bit-identity for the early exit, exact region equality for the shortcut."),
-   note="Only exact rectilinear families are explored randomly (on inexact families the pinned sweep is already unstable: KF-2 corpus). First clause of C09 has no seam and is not claimed."),
+     text="Second clause of C09 (results agree whether or not the bbox shortcut / early sweep exit is taken) on four exact operand families (rectangles with holes/islands/frames, orthogonal histograms, non-crossing lattice polygons incl. nested, octilinear crossing polygons), all trait pairings, f32/f64, power-of-two scales 2^-200..2^200: bit-identity when the shortcut is not taken, region equality (exact on rectilinear results, sampled otherwise) when it is; an unknown exit or pruning is only reported when the region model says the result is wrong."),
+   note="Seeded sampling. Inexact (crossing lattice) families are excluded from exploration because the pinned sweep is unstable there (KF-2 corpus replayed as known findings). First clause of C09 (far part relation between two inputs) has no seam and is not claimed as such; far parts are the stimulus."),
  "C12": dict(
    engine="sim",
-   technique="deterministic simulation: simulated client threads under a seeded baton scheduler (call- and sweep-event-granular), simulated heap, owned hash keys, injected cancellation; reference = same call in isolation; Miri many-seeds as second simulator",
+   technique="deterministic simulation: simulated client threads (real parked OS threads) under a seeded baton scheduler with scheduling points at call boundaries, sweep events and ring-assembly steps; simulated heap (placement/fill/poison), owned std hash keys (getrandom), injected cancellation, thread retirement, soak histories; reference = same call in isolation; Miri many-seeds (Tree Borrows) as second simulator",
    level=dict(category="exploration", design_ref="DESIGN.md section 4",
      text="Seeded search over call histories, thread placements, event-level interleavings, allocation placement/contents, hash keys and cancellations; every completed call must equal bit for bit its isolated reference and no operand may change."),
-   note="Interleaving is simulated one-thread-at-a-time at call and sweep-event granularity natively; instruction-level preemption and data races only under Miri on tiny inputs."),
+   note="Interleaving is simulated one-thread-at-a-time at call, sweep-event and ring-assembly-step granularity natively (falls back to call granularity, and says so, if a client blocks on a lock the simulator does not own); instruction-level preemption, data races and first-use races only under Miri on tiny inputs."),
 }
 def main():
     claimed = [a for a in sys.argv[1:] if a.startswith("C")]
